@@ -102,7 +102,7 @@ with the cloning `Emit`, every collected element read after the whole stream was
 with. -/
 theorem elementsAfter_clone (D M : Nat) (f : Bytes) :
     elementsAfter true D M f = (reverseScan D M f).1 := by
-  unfold elementsAfter reverseScan
+  unfold elementsAfter reverseScan reverseScanV
   have h0 : (initHS (newScanner D M f.length)).cur < (initHS (newScanner D M f.length)).heap.length := by
     simp [initHS]
   obtain ⟨_, hc1, _, _⟩ := scanH_frame f (f.length + 2) _ h0
